@@ -59,6 +59,11 @@ def wsum(weight, coupling):
     return einsum('ij,ij->i', weight, coupling)
 """
 
+def _np_wsum(weight, coupling):
+    # numpy stand-in used for shape/value inference at compile time (the generated code uses the torch `def`)
+    return np.einsum('ij,ij->i', weight, coupling)
+
+
 # dictionary for backend import
 ###############################
 
@@ -84,7 +89,7 @@ torch_funcs = {
     'exp': {'call': 'exp', 'func': np.exp, 'imports': ['torch.exp']},
     'sigmoid': {'call': 'sigmoid', 'func': sigmoid, 'imports': ['torch.sigmoid']},
     'interp': {'call': 'interp', 'func': np.interp, 'def': interp, 'imports': ['torch.clamp', 'torch.searchsorted']},
-    'wsum':   {'call': 'wsum',   'def': wsum, 'imports': ['torch.einsum']},
+    'wsum':   {'call': 'wsum',   'def': wsum, 'func': _np_wsum, 'imports': ['torch.einsum']},
     'real': {'call': 'real', 'func': np.real, 'imports': ['torch.real']},
     'imag': {'call': 'imag', 'func': np.imag, 'imports': ['torch.imag']},
     'conj': {'call': 'conj', 'func': np.conjugate, 'imports': ['torch.conj']},
